@@ -97,6 +97,7 @@ Definition the_kis (i : authin) := List.map (lookup_key (a_keys i)) (key_args i)
 Theorem auth_sound i o : auth i = Ok o ->
   exists n ktypes, a_acl i = AclOk (r_addr o) false false n ktypes /\
     nth 1 (a_args i) [] = a_cc i /\ nth 2 (a_args i) [] = a_ch i /\
+    (forall r, a_routed i = Some r -> nth 1 (a_args i) [] = r) /\
     (1 <= n_signers i)%nat /\
     (required n (n_signers i) <= count_genuine (the_kis i) (sig_args i) (a_sigs i) (the_msg i))%nat /\
     (1 <= count_genuine (the_kis i) (sig_args i) (a_sigs i) (the_msg i))%nat.
@@ -106,8 +107,11 @@ Proof.
   destruct (Nat.odd _); [discriminate|]. fold (n_signers i).
   destruct (Nat.eqb_spec (n_signers i) 0) as [|Hs]; [discriminate|].
   destruct (bool_decide (nth 1 (a_args i) [] = a_cc i)) eqn:E1; cbn [negb]; [|discriminate].
+  destruct (match a_routed i with Some r => bool_decide (nth 1 (a_args i) [] = r) | None => true end) eqn:E3; cbn [negb]; [|discriminate].
   destruct (bool_decide (nth 2 (a_args i) [] = a_ch i)) eqn:E2; cbn [negb]; [|discriminate].
   apply bool_decide_eq_true in E1, E2.
+  assert (H3 : forall r, a_routed i = Some r -> nth 1 (a_args i) [] = r).
+  { intros r Hr. rewrite Hr in E3. apply bool_decide_eq_true in E3. exact E3. }
   destruct (a_acl i) as [|addr black grey n ktypes]; [discriminate|].
   destruct black; [discriminate|]. destruct grey; [discriminate|].
   fold (key_args i) (sig_args i) (the_kis i) (the_msg i).
@@ -127,7 +131,7 @@ Proof.
   destruct (Nat.ltb_spec (length (a_args i)) (n_expected i)); [discriminate|].
   destruct (Nat.odd _); [discriminate|]. fold (n_signers i).
   destruct (Nat.eqb_spec (n_signers i) 0) as [|Hs]; [discriminate|].
-  destruct (negb _); [discriminate|]. destruct (negb _); [discriminate|].
+  destruct (negb _); [discriminate|]. destruct (negb _); [discriminate|]. destruct (negb _); [discriminate|].
   destruct (a_acl i) as [|addr black grey n ktypes]; [discriminate|].
   destruct black; [discriminate|]. destruct grey; [discriminate|].
   fold (key_args i) (sig_args i) (the_kis i) (the_msg i).
@@ -148,7 +152,7 @@ Qed.
 Theorem auth_needs_a_signature i o : auth i = Ok o ->
   exists j sa, nth_error (sig_args i) j = Some sa /\ sa <> [].
 Proof.
-  intros Ho. apply auth_sound in Ho as (n & kt & _ & _ & _ & _ & _ & Hc).
+  intros Ho. apply auth_sound in Ho as (n & kt & _ & _ & _ & _ & _ & _ & Hc).
   revert Hc. generalize (the_kis i) (sig_args i) (a_sigs i).
   intros kis. induction kis as [|k kr IH]; intros sas sgs; cbn [count_genuine]; [lia|].
   destruct sas as [|sa sr]; [lia|]. destruct sgs as [|sg gr]; [lia|].
@@ -164,7 +168,7 @@ Theorem sig_binds_message i o m0 :
   (forall sg sk kt m, In sg (a_sigs i) -> sg = SigBy sk kt m -> m = m0) ->
   auth i = Ok o -> the_msg i = m0.
 Proof.
-  intros Hall Ho. apply auth_sound in Ho as (n & kt & _ & _ & _ & _ & _ & Hc).
+  intros Hall Ho. apply auth_sound in Ho as (n & kt & _ & _ & _ & _ & _ & _ & Hc).
   revert Hc. generalize (the_kis i) (sig_args i). intros kis sas.
   assert (G : forall sgs, (forall sg, In sg sgs -> In sg (a_sigs i)) ->
               (1 <= count_genuine kis sas sgs (the_msg i))%nat -> the_msg i = m0).
@@ -203,11 +207,17 @@ Proof.
 Qed.
 
 (* a request that does not name this chaincode and this channel is rejected *)
-Theorem retarget_rejected i : (nth 1 (a_args i) [] <> a_cc i \/ nth 2 (a_args i) [] <> a_ch i) ->
+Theorem retarget_rejected i : (nth 1 (a_args i) [] <> a_cc i \/ nth 2 (a_args i) [] <> a_ch i \/
+                               exists r, a_routed i = Some r /\ nth 1 (a_args i) [] <> r) ->
   forall o, auth i <> Ok o.
 Proof.
-  intros H o Ho. apply auth_sound in Ho as (n & kt & _ & H1 & H2 & _). tauto.
+  intros H o Ho. apply auth_sound in Ho as (n & kt & _ & H1 & H2 & H3 & _).
+  destruct H as [H|[H|[r [Hr H]]]]; [tauto|tauto|]. apply H, H3, Hr.
 Qed.
+(* a request accepted by a chaincode that was reached through a peer names that chaincode, whatever the submitter
+   wrote into the proposal payload *)
+Theorem accepted_names_routed i o r : auth i = Ok o -> a_routed i = Some r -> nth 1 (a_args i) [] = r.
+Proof. intros Ho Hr. apply auth_sound in Ho as (n & kt & _ & _ & _ & H3 & _). apply H3, Hr. Qed.
 
 (* ---- distinct signers ------------------------------------------------------------------- *)
 (* the presented key strings at the positions that hold a non-blank genuine signature *)
@@ -270,7 +280,7 @@ Theorem auth_distinct_signers i o : auth i = Ok o -> List.NoDup (key_args i) ->
     forall x, In x ks -> exists j k sg, nth_error (key_args i) j = Some x /\ nth_error (the_kis i) j = Some k /\
                                         nth_error (a_sigs i) j = Some sg /\ genuine k (the_msg i) sg.
 Proof.
-  intros Ha Hn. destruct (auth_sound i o Ha) as (n & kt & H1 & _ & _ & _ & H5 & H6).
+  intros Ha Hn. destruct (auth_sound i o Ha) as (n & kt & H1 & _ & _ & _ & _ & H5 & H6).
   exists n, kt, (genuine_keys (key_args i) (the_kis i) (sig_args i) (a_sigs i) (the_msg i)).
   assert (Hl : length (key_args i) = length (the_kis i)) by (unfold the_kis; rewrite map_length; reflexivity).
   split; [exact H1|]. split; [apply genuine_keys_nodup, Hn|].
